@@ -135,6 +135,18 @@ def build():
     span = frh.impl_span(r'impl<S: VhostUserFrontendReqHandler> FrontendReqHandler<S>$')
     u.raw("impl FrontendReqHandler {")
     u.extracted_fn(frh, "check_state", within=span, body_rw=BODY_RW, contract="\n        ensures (r is Ok) == (self.error is None)")
+    # the server's construction (third session): it listens on one half of a fresh socket pair and hands out the OTHER half of the same
+    # pair for SET_BACKEND_REQ_FD; acknowledgements off, no failure, the caller's handler
+    u.extracted_fn(frh, "new", within=span,
+                   sig_rw=[("R3", r'backend: Arc<S>', 'backend: HandlerStub2'), ("R3", r'Result<Self>', 'Result<FrontendReqHandler>')],
+                   body_rw=[("R6", r'\.map_err\(Error::SocketError\)', '.map_err(|e: IoError| -> (o: Error) ensures o == Error::SocketError(e) { Error::SocketError(e) })'),
+                            ("R3", r'Endpoint::<VhostUserMsgHeader<BackendReq>>::from_stream\(', 'Endpoint::<BackendReq>::from_stream(')],
+                   contract="""
+        ensures r is Ok ==> r->Ok_0.sub_sock.on@.0 == r->Ok_0.tx_sock.pair@ && r->Ok_0.sub_sock.on@.1 != r->Ok_0.tx_sock.side@
+                && r->Ok_0.sub_sock.log@ =~= Seq::<Ev>::empty() && !r->Ok_0.sub_sock.io_failed@, // [C18:server-channel] the server reads on one half of a fresh pair, the descriptor it hands out is the other half of the SAME pair; nothing sent or received yet
+            r is Ok ==> !r->Ok_0.reply_ack_negotiated && r->Ok_0.error is None && r->Ok_0.backend == backend, // [C18:server-starts-closed,C07] acknowledgements are off and no failure is recorded on a new server""")
+    u.extracted_fn(frh, "get_tx_raw_fd", within=span, contract="""
+        ensures r == self.tx_sock.fd // [C18:server-channel,C02] the descriptor to send with SET_BACKEND_REQ_FD is the transmit half's""")
     # the server's two state setters (third session): each writes exactly its field
     u.extracted_fn(frh, "set_reply_ack_flag", within=span, body_rw=BODY_RW, contract="""
         ensures final(self).reply_ack_negotiated == enable, final(self).error == old(self).error, final(self).sub_sock == old(self).sub_sock,
